@@ -137,3 +137,39 @@ INSTANCES.update({
     "lit_overflow_finish": (LIT_OVERFLOW_FINISH, "edge", {}),
     "lit_overflow_finish_c": (with_(LIT_OVERFLOW_FINISH, cancelable=True), "edge", {}),
 })
+
+INSTANCES.update({
+    # attachments to a span with two parents in one trace (known finding D16)
+    "twin4": (seq(["root", "child", "child2", "sevent", "sprops", "drop"], MaxOps=5, MaxSpans=3, MaxAtt=2, MaxCycles=1), "terminal", {}),
+    # bigger two-thread menus (thorough)
+    "par5": (dict(threads=[1, 2], born=[1, 2], K=8, menu=["root", "child", "drop", "exit", "flush"], MaxOps=5, MaxSpans=3, MaxCycles=2, MaxFlush=1,
+                  trackcut=True), "terminal", {}),
+    "par5_c": (dict(threads=[1, 2], born=[1, 2], K=8, menu=["root", "child", "drop", "exit", "flush"], MaxOps=5, MaxSpans=3, MaxCycles=2, MaxFlush=1,
+                    cancelable=True, trackcut=True), "terminal", {}),
+    "cancel5_c": (dict(threads=[1, 2], born=[1, 2], K=8, menu=["root", "child", "cancel", "drop", "exit"], MaxOps=5, MaxSpans=3, MaxCycles=2,
+                       cancelable=True, trackcut=True), "terminal", {}),
+    "over6_c": (seq(["root", "child", "cancel", "drop", "exit"], K=2, MaxOps=6, MaxSpans=3, MaxRoots=2, MaxCycles=3, cancelable=True), "terminal", {}),
+    "hostile5": (seq(["root", "mknoop", "child", "childm", "childl", "setlp", "dropg", "lenter", "lexit", "levent", "lprops", "lwith", "lpropsre",
+                      "lwithre", "sprops", "swith", "sevent", "cancel", "ctxl", "ctxs", "drop", "lcstart", "lcdrop"],
+                     MaxOps=5, MaxSpans=3, MaxAtt=2, MaxCycles=0, K=1, QCap=2, SCap=1, MaxScopes=2), "terminal", {}),
+    # random walks through larger instances
+    "sim_par3": (dict(threads=[1, 2, 3], born=[1, 2], K=8, menu=["root", "child", "child2", "setlp", "dropg", "lenter", "lexit", "levent", "sevent",
+                                                                     "drop", "exit", "flush", "spawn"],
+                      MaxOps=12, MaxSpans=5, MaxRoots=2, MaxTraces=2, MaxAtt=3, MaxCycles=4, MaxFlush=1, trackcut=True),
+                 "terminal", dict(simulate=dict(num=6000, depth=120))),
+    "sim_par3_c": (dict(threads=[1, 2, 3], born=[1, 2], K=8, menu=["root", "child", "child2", "setlp", "dropg", "lenter", "lexit", "levent", "sevent",
+                                                                       "cancel", "drop", "exit", "flush", "spawn"],
+                        MaxOps=12, MaxSpans=5, MaxRoots=2, MaxTraces=2, MaxAtt=3, MaxCycles=4, MaxFlush=1, cancelable=True, trackcut=True),
+                   "terminal", dict(simulate=dict(num=6000, depth=120))),
+    "sim_tree": (seq(TREE + ["child2", "lcstart", "lccollect", "lcdrop", "pushc"], MaxOps=14, MaxSpans=6, MaxRoots=3, MaxTraces=2, MaxScopes=4,
+                     MaxLocal=4, MaxLs=2, MaxCycles=3), "terminal", dict(simulate=dict(num=6000, depth=120))),
+    "sim_att": (seq(["root", "child", "setlp", "dropg", "lenter", "lexit", "drop"] + ATT, MaxOps=14, MaxSpans=4, MaxAtt=8, MaxScopes=3, MaxLocal=3,
+                    MaxCycles=4), "terminal", dict(simulate=dict(num=6000, depth=120))),
+})
+
+# C18: the same programs with a pause before every call, so that intervals dwarf the tolerances
+INSTANCES.update({
+    "time_tree4": (dict(INSTANCES["tree4"][0], op_sleep_us=150), "terminal", {}),
+    "time_lc5": (dict(INSTANCES["lc5"][0], op_sleep_us=150), "terminal", {}),
+    "time_att4": (dict(INSTANCES["att4"][0], op_sleep_us=150), "terminal", {}),
+})
